@@ -95,67 +95,89 @@ def feed (s : Rx) (chunk : Bytes) : Rx :=
 def Rx.disconnect (s : Rx) : Rx := { s with buf := [] }
 
 /-!
-## OnData — the hand-over of a received segment from the connection's thread to the receiver thread
+## OnData — the hand-over of work from a producer thread to a consumer thread that sleeps on a trigger
 
-`Protocol._on_connection_data_received` runs on the connection's thread: its statements (the *generated* list `Gen.RxOrder.onData`) are
-executed one per step.  The receiver thread (`ProtocolDispatcher._receiver_thread_function`) waits for the trigger, clears it, and then
-makes one pass over the receive buffer (`feed` above).  `unseen` = the buffer holds bytes no receiver pass has looked at yet.
-`feed`'s "one `on_data` event followed by one run of the loop" is sound only if no wake-up can be lost here.
+Two hand-overs on the receive path have this shape:
+* received bytes: `Protocol._on_connection_data_received` (connection's thread) → `ProtocolDispatcher._receiver_thread_function`;
+* decoded blocks: `ProtocolDispatcher.queue_block` (receiver thread) → `_dispatcher_thread_function`.
+Both programs are *generated* lists of statement tags (`Gen.RxOrder`), executed one statement per step.  Producer: `append` puts the item
+where the consumer will look (`unseen := true`), `trigger` sets the event.  Consumer loop: `wait` (passes only when the event is set; does
+not clear it), `clear`, `stoptest` (no effect here), `target`/`drain` (looks at everything that is there: `unseen := false`).
+`feed`'s "one `on_data` event followed by one run of the loop" and the FIFO delivery to the dispatcher are faithful readings of the
+threaded code only if no wake-up can be lost in these hand-overs.
 -/
 namespace OnData
 
-inductive RxPc | idle | woke     -- in `trigger.wait()` / trigger cleared, pass over the buffer still to come
-deriving DecidableEq, Repr
-
 structure St where
-  prog : List String   -- what is left of the handler for the segment being handed over
+  prog : List String   -- what is left of the producer's handler for the item being handed over
   unseen : Bool
   trig : Bool
-  rx : RxPc
+  pc : Nat             -- index of the consumer's next statement in its loop body
 deriving DecidableEq, Repr
 
-def St.init : St := ⟨[], false, false, .idle⟩
+def St.init : St := ⟨[], false, false, 0⟩
 
 inductive Lbl
-  | segment      -- environment: the connection's thread has received a segment and enters the handler
-  | conn         -- one statement of the handler
-  | rx           -- one step of the receiver thread
+  | item         -- environment: the producer has a new item and enters its handler
+  | prod         -- one statement of the producer's handler
+  | cons         -- one statement of the consumer's loop
 deriving DecidableEq, Repr
 
-def step (onData : List String) (s : St) : Lbl → Option St
-  | .segment => if s.prog = [] then some { s with prog := onData } else none
-  | .conn =>
+def step (producer loop : List String) (s : St) : Lbl → Option St
+  | .item => if s.prog = [] then some { s with prog := producer } else none
+  | .prod =>
     match s.prog with
     | [] => none
     | st :: rest =>
       if st = "append" then some { s with prog := rest, unseen := true }
       else if st = "trigger" then some { s with prog := rest, trig := true }
       else none
-  | .rx =>
-    match s.rx with
-    | .idle => if s.trig then some { s with trig := false, rx := .woke } else none
-    | .woke => some { s with unseen := false, rx := .idle }
+  | .cons =>
+    let next := if s.pc + 1 < loop.length then s.pc + 1 else 0
+    match loop[s.pc]? with
+    | none => none
+    | some st =>
+      if st = "wait" then (if s.trig then some { s with pc := next } else none)
+      else if st = "clear" then some { s with trig := false, pc := next }
+      else if st = "stoptest" then some { s with pc := next }
+      else if st = "target" ∨ st = "drain" then some { s with unseen := false, pc := next }
+      else none
 
-def labels : List Lbl := [.segment, .conn, .rx]
+def labels : List Lbl := [.item, .prod, .cons]
 
-def run (onData : List String) : St → List Lbl → Option St
+def run (producer loop : List String) : St → List Lbl → Option St
   | s, [] => some s
-  | s, l :: ls => match step onData s l with
-    | some s' => run onData s' ls
+  | s, l :: ls => match step producer loop s l with
+    | some s' => run producer loop s' ls
     | none => none
 
-/-- **lost wake-up**: bytes nobody has looked at, the receiver thread asleep, no wake-up pending and none coming from the handler -/
-def lost (s : St) : Bool := s.unseen && !s.trig && s.rx == .idle && !s.prog.contains "trigger"
+/-- **lost wake-up**: an item nobody has looked at, the consumer asleep in `wait` with the event clear, and no `trigger` coming from the
+producer's handler -/
+def lost (loop : List String) (s : St) : Bool :=
+  s.unseen && !s.trig && loop[s.pc]? == some "wait" && !s.prog.contains "trigger"
 
-/-- breadth-first closure (the system is finite: `prog` is a suffix of the handler) -/
-def closure (onData : List String) : Nat → List St → List St → List St
+/-- breadth-first closure (the system is finite: `prog` is a suffix of the handler, `pc` an index into the loop) -/
+def closure (producer loop : List String) : Nat → List St → List St → List St
   | 0, seen, _ => seen
   | n+1, seen, frontier =>
-    let next := (frontier.flatMap (fun s => labels.filterMap (step onData s))).foldl (fun acc x => if acc.contains x then acc else acc ++ [x]) seen
+    let next := (frontier.flatMap (fun s => labels.filterMap (step producer loop s))).foldl
+      (fun acc x => if acc.contains x then acc else acc ++ [x]) seen
     let fresh := next.drop seen.length
-    if fresh.isEmpty then seen else closure onData n next fresh
+    if fresh.isEmpty then seen else closure producer loop n next fresh
 
-def reach (onData : List String) : List St := closure onData 32 [St.init] [St.init]
+def reach (producer loop : List String) : List St := closure producer loop 64 [St.init] [St.init]
+
+/-- the whole obligation for one hand-over, as a decidable statement -/
+def noLostWakeup (producer loop : List String) : Bool :=
+  producer.filter (· = "append") == ["append"]
+  && producer.all (fun st => st = "append" || st = "trigger")
+  && loop.all (fun st => st = "wait" || st = "clear" || st = "stoptest" || st = "target" || st = "drain")
+  && (reach producer loop).contains St.init
+  && (reach producer loop).all (fun s => labels.all (fun l => match step producer loop s l with
+        | some s' => (reach producer loop).contains s' | none => true))
+  && (reach producer loop).all (fun s => !lost loop s)
+  -- an unseen item with the handler finished: the consumer can take a step (it is not stuck in `wait`)
+  && (reach producer loop).all (fun s => !(s.unseen && s.prog.isEmpty) || (step producer loop s .cons).isSome)
 
 end OnData
 
